@@ -209,6 +209,17 @@ func (p *pathNode) addPathNodeFor(name string, pn *pathNode) {
 // returned by this function. Any operations on the removed tree must use this
 // value.
 func (p *pathNode) removeWithName(name string, fn func(ref *fidRef)) *pathNode {
+	// References taken for the callbacks are dropped only after childMu is
+	// released (deferred first, so it runs last): dropping the last one
+	// closes the file and unregisters it from its parent's node, which by
+	// then may be this very node - its childMu must not be held.
+	var pinned []*fidRef
+	defer func() {
+		for _, ref := range pinned {
+			ref.DecRef()
+		}
+	}()
+
 	p.childMu.Lock()
 	defer p.childMu.Unlock()
 
@@ -225,8 +236,8 @@ func (p *pathNode) removeWithName(name string, fn func(ref *fidRef)) *pathNode {
 			// can lead to data races. If the child has already
 			// been destroyed, then we can skip the callback.
 			if ref.TryIncRef() {
+				pinned = append(pinned, ref)
 				fn(ref)
-				ref.DecRef()
 			}
 		}
 	}
